@@ -274,6 +274,7 @@ class Verdict:
         self.violations.append((key, detail))
 
     def finish(self):
+        shutil.rmtree(os.path.join(EVID, "replay", self.pid), ignore_errors=True)
         for key in sorted(self.known_hits):
             print("KNOWN-FINDING: property=%s %s" % (self.pid, key), flush=True)
         if not self.violations:
